@@ -9,6 +9,8 @@ Instrumented points (labels):
     exists, getsize            os.path.exists / os.path.getsize in get_file
     lock                       acquisition of FileCache.file_futures_lock (the whole
                                lock-protected block, including executor.submit, is one step)
+    unlock                     right after the release of that lock (stutter step: not sent to
+                               the Lean machine)
     wait                       Future.result() — enabled only when the future is done
     read                       worker: open(...,'rb') + file.read()
     trunc, write, fsync        worker: open(...,'wb'), f.write, os.fsync
@@ -237,7 +239,9 @@ class Sched:
                 self.diag = f"choice {tid} at step {len(self.trace)} not in enabled set {en}"
                 return self.status
             t = self.threads[tid]
-            self.trace.append(dict(tid=tid, label=t.label, enabled=list(en), prev=prev))
+            self.trace.append(dict(tid=tid, label=t.label, enabled=list(en), prev=prev,
+                                   parked=[x.tid for x in self.threads.values()
+                                           if x.state == "blocked" and x.label == "unlock"]))
             self.step = len(self.trace) - 1
             t.sem.release()
             if not self.ctl.acquire(timeout=HARD_TIMEOUT):
@@ -350,6 +354,12 @@ class FakeLock:
         if self.on_release:
             self.on_release(exc_type)
         self.held = False
+        # the release is a scheduling point: the thread can be parked right after leaving the
+        # lock-protected block while other threads and worker tasks run (in the unchanged code
+        # it only does thread-local work from here to its next point, so this is a stutter step
+        # for the Lean machine; code that touches shared state in this window is exposed)
+        if not self.sched.abort:
+            self.sched.point("unlock")
 
     def locked(self):
         return self.held
